@@ -10,7 +10,8 @@ import DoviModel.Model.Hevc
     sei.msgs <hex>                                                       -> ok <type:hex,..> | err
 
   flags: a string of letters or `-`: c = a mode / edit config is set, d = --discard, o = --el-only,
-  a = --start-code annex-b, h = --drop-hdr10plus, n = --no-add-aud, e = --eos-before-el
+  a = --start-code annex-b, h = --drop-hdr10plus, n = --no-add-aud, e = --eos-before-el,
+  L = the first read chunk held a single start code (see `generalFrom`)
   items: `type:au:hex` joined by `,` (or `-`); convtable: `hex=hex` / `hex=-` (library refuses) joined by `,`;
   pres: presentation numbers by decode index joined by `,`; auds / rpus: hex joined by `,`;
   outs: `sc:hex` joined by `,`. -/
@@ -54,7 +55,7 @@ def run : List String → String
   | ["hevc.general", cmd, flags, conv, items] =>
     let base : Cfg := if cmd == "convert" then cfgConvert else if cmd == "demux" then cfgDemux (has flags 'o') else cfgRemove
     let c : Cfg := { base with convSet := has flags 'c', discard := has flags 'd', drop := has flags 'h', annexb := has flags 'a' }
-    match general c (convOf (parseConv conv)) (parseItems items) with
+    match generalFrom (has flags 'L') c (convOf (parseConv conv)) (parseItems items) with
     | none => "err"
     | some s =>
       if cmd == "convert" then s!"ok out={outsStr s.sl}"
